@@ -321,9 +321,12 @@ fn grid_history<I: DegX>(rng: &mut StdRng, t: &mut Tracer, cnt: &mut GridCounter
                     *cnt.listing_observed_irregular.entry(k).or_insert(0) += 1; } }
                 t.emit(&ev(json!({"op":name}), r));
             }
-            16 | 17 => { if !regular { continue; } let (a, b) = (rng.gen_range(-2..3), rng.gen_range(-3..4)); g = g.map(|x| a * x + b); t.emit(&json!({"op":"map","res":"ok","a":a,"b":b})); }
+            16 | 17 => { if !regular { continue; } let (a, b) = (rng.gen_range(-2..3), rng.gen_range(-3..4)); g = g.map(|x| a * x + b); t.emit(&json!({"op":"map","res":"ok","a":a,"b":b}));
+                         t.emit(&json!({"op":"iter","res":"ok","out":iter_json(g.iter().map(|(i, e)| (i, *e)))})); t.emit(&json!({"op":"get_default","res":"ok","out":*g.get_default()})); }
             18 | 19 => { if !regular || I::DIM != 1 || I::UNSIGNED { continue; } let lo = rng.gen_range(-5..4); let hi = rng.gen_range(lo - 1..6);
-                    if let Some(h) = I::truncated(&g, lo, hi) { g = h; listed.retain(|d| lo <= d[0] && d[0] <= hi); stored = listed.iter().cloned().collect(); t.emit(&json!({"op":"truncated","res":"ok","lo":lo,"hi":hi})); } }
+                    if let Some(h) = I::truncated(&g, lo, hi) { g = h; listed.retain(|d| lo <= d[0] && d[0] <= hi); stored = listed.iter().cloned().collect(); t.emit(&json!({"op":"truncated","res":"ok","lo":lo,"hi":hi}));
+                        // the listing right after (the range ends are the interesting degrees)
+                        t.emit(&json!({"op":"support","res":"ok","out":g.support().map(|i| i.to()).collect::<Vec<_>>()})); t.emit(&ev(json!({"op":"is_supported","i":[hi]}), guarded(|| g.is_supported(I::of(&[hi]))))); } }
             _ => {
                 // degree arithmetic (for the unsigned types only differences that exist)
                 let (x, y) = (deg(rng), deg(rng));
@@ -601,6 +604,158 @@ pub fn fmt_record(a: &Args) {
     summary("record", json!({"events": n, "panics": panics}));
 }
 
+// =====================================================================================================================
+// Tng / TngComp
+// =====================================================================================================================
+use yui_kh::kh::internal::v2::tng::{Tng, TngComp};
+use yui_link::{Crossing, CrossingType};
+
+fn comp_of(v: &Value) -> TngComp { TngComp::from(path_of(v)) }
+fn comp_json(c: &TngComp) -> Value { path_json(c.path()) }
+fn tng_json(t: &Tng) -> Value { json!(t.comps().map(comp_json).collect::<Vec<_>>()) }
+fn tng_of(v: &Value) -> Tng { Tng::new(v.as_array().unwrap().iter().map(comp_of)) }
+/// componentwise equality up to orientation (the harness' own comparison of a listing with TLC's)
+fn same_listing(got: &Value, want: &Value) -> bool {
+    let (g, w) = (got.as_array().unwrap(), want.as_array().unwrap());
+    g.len() == w.len() && g.iter().zip(w.iter()).all(|(a, b)| { let (ea, eb) = (usizes(&a["edges"]), usizes(&b["edges"]));
+        a["closed"] == b["closed"] && if a["closed"] == json!(true) { same_cycle(&ea, &eb) } else { ea == eb || ea.iter().rev().cloned().collect::<Vec<_>>() == eb } })
+}
+fn idx_json(i: Option<usize>) -> i64 { i.map(|x| x as i64).unwrap_or(-1) }
+fn resolved_crossing(kind: &str, e: &[usize]) -> Crossing { Crossing::new(if kind == "V" { CrossingType::V } else { CrossingType::H }, [e[0], e[1], e[2], e[3]]) }
+
+/// spec -> impl: every small tangle x one operation.
+pub fn tng_replay(a: &Args) {
+    let lines = read_ndjson(a.inp.as_ref().expect("--in"));
+    let (mut checks, mut bad) = (0usize, 0usize);
+    let mut ops: BTreeMap<String, usize> = BTreeMap::new();
+    for ln in lines.iter() {
+        let last = &ln["last"]; let op = last["op"].as_str().unwrap();
+        *ops.entry(op.to_string()).or_insert(0) += 1;
+        let mut diff: Vec<Value> = vec![];
+        let r = guarded(|| {
+            let mut t = tng_of(&last["pre"]);
+            let mut extra = json!({});
+            match op {
+                "observe" => {}
+                "append_arc" => t.append_arc(comp_of(&last["arc"])),
+                "connect" => { let o = tng_of(&last["other"]); let c = t.connected(&o); t.connect(o); extra = json!({"connected": tng_json(&c)}); }
+                "remove_at" => { let c = t.remove_at(last["i"].as_u64().unwrap() as usize); extra = json!({"comp": comp_json(&c)}); }
+                "convert_edges" => { let (m, b) = (last["mul"].as_i64().unwrap(), last["add"].as_i64().unwrap()); t = t.convert_edges(|e| (b + m * e as i64) as usize); }
+                "from_resolved" => { t = Tng::from_resolved(&resolved_crossing(last["kind"].as_str().unwrap(), &usizes(&last["edges"]))); }
+                o => panic!("op {}", o),
+            }
+            let k = ln["k"].as_u64().unwrap() as usize;
+            let mut ends: Vec<usize> = t.endpts().into_iter().collect(); ends.sort();
+            let probe: Vec<Value> = ln["probe"].as_array().unwrap().iter().map(|p| { let c = comp_of(&p["c"]);
+                json!({"c": p["c"], "idx": idx_json(t.index_of(&c)), "conn": idx_json(t.find_comp(|d| d.is_connectable(&c))), "has": t.contains(&c)}) }).collect();
+            json!({"out": tng_json(&t), "n": t.ncomps(), "empty": t.is_empty(), "closed": t.is_closed(), "hascirc": t.contains_circle(), "euler": t.euler_num(), "endpts": ends,
+                   "find_circle": idx_json(t.find_comp(|c| c.is_circle())), "find_label": (1..=k + 1).map(|e| idx_json(t.find_comp(|c| c.contains(e)))).collect::<Vec<_>>(),
+                   "comp": (0..t.ncomps()).map(|i| comp_json(t.comp(i))).collect::<Vec<_>>(), "probe": probe, "extra": extra})
+        });
+        match r {
+            Err(m) => diff.push(json!({"what": "panic", "panic": m})),
+            Ok(g) => {
+                checks += 1; if !same_listing(&g["out"], &ln["out"]) { diff.push(json!({"what": "components", "got": g["out"], "want": ln["out"]})); }
+                if op == "remove_at" { checks += 1; if !same_listing(&json!([g["extra"]["comp"]]), &json!([last["comp"]])) { diff.push(json!({"what": "remove_at result", "got": g["extra"]["comp"], "want": last["comp"]})); } }
+                if op == "connect" { checks += 1; if !same_listing(&g["extra"]["connected"], &ln["out"]) { diff.push(json!({"what": "connected", "got": g["extra"]["connected"], "want": ln["out"]})); } }
+                let mut cmp = |what: &str, got: &Value, want: &Value| { checks += 1; if got != want { diff.push(json!({"what": what, "got": got, "want": want})); } };
+                cmp("comp(i) listing", &g["comp"], &g["out"]);
+                for f in ["n", "closed", "hascirc", "euler", "endpts", "find_circle", "find_label"] { cmp(f, &g[f], &ln[f]); }
+                cmp("is_empty", &g["empty"], &json!(ln["n"] == json!(0)));
+                for (pg, pw) in g["probe"].as_array().unwrap().iter().zip(ln["probe"].as_array().unwrap().iter()) {
+                    cmp("index_of", &pg["idx"], &pw["idx"]); cmp("find_comp(connectable)", &pg["conn"], &pw["conn"]); cmp("contains", &pg["has"], &json!(pw["idx"] != json!(-1))); }
+            }
+        }
+        if !diff.is_empty() { bad += 1; mismatch(json!({"case": ln, "diff": diff})); }
+    }
+    summary("replay", json!({"transitions": lines.len(), "checks": checks, "mismatches": bad, "ops": ops}));
+}
+
+fn tng_observe(t: &Tng, tr: &mut Tracer, rng: &mut StdRng) {
+    match rng.gen_range(0..7) {
+        0 => tr.emit(&json!({"op":"comps","res":"ok","out":tng_json(t)})),
+        1 => tr.emit(&json!({"op":"counts","res":"ok","n":t.ncomps(),"empty":t.is_empty(),"closed":t.is_closed(),"hascirc":t.contains_circle(),"euler":t.euler_num()})),
+        2 => { let mut e: Vec<usize> = t.endpts().into_iter().collect(); e.shuffle(rng); tr.emit(&json!({"op":"endpts","res":"ok","out":e})); }
+        3 => { let i = rng.gen_range(0..t.ncomps() + 2); let r = guarded(|| comp_json(t.comp(i))); tr.emit(&ev(json!({"op":"comp","i":i}), r)); }
+        4 => { if t.ncomps() == 0 { return; } let c = t.comp(rng.gen_range(0..t.ncomps())); let mut es = c.path().edges().clone();
+               match rng.gen_range(0..4) { 0 => {}, 1 => es.reverse(), 2 => { let n = es.len(); if c.is_circle() { es.rotate_left(rng.gen_range(0..n)); } else { es.reverse(); } }, _ => { if es.len() >= 3 { es.swap(0, 1); } else { es[0] += 1000; } } }
+               let d = TngComp::from(Path::new(es, c.is_circle()));
+               tr.emit(&json!({"op":"index_of","res":"ok","c":comp_json(&d),"has":t.contains(&d),"out":idx_json(t.index_of(&d))})); }
+        5 => tr.emit(&json!({"op":"find_circle","res":"ok","out":idx_json(t.find_comp(|c| c.is_circle()))})),
+        _ => { let e = rng.gen_range(0..60); tr.emit(&json!({"op":"find_label","res":"ok","e":e,"out":idx_json(t.find_comp(|c| c.contains(e)))})); }
+    }
+}
+
+/// impl -> spec: (1) the builder's use: the resolved crossings of a random resolution of a random braid closure glued one by one
+/// (the result must be closed); (2) free histories: arcs on fresh labels attached to open ends, circles, remove_at, relabelling.
+pub fn tng_record(a: &Args) {
+    let mut tr = Tracer::create(&a.out);
+    let nh = if a.thorough() { 400 } else { 60 };
+    let (mut panics, mut glued_crossings, mut closed_tangles, mut merges3) = (0usize, 0usize, 0usize, 0usize);
+    for h in 0..nh {
+        let mut rng = a.rng(7900 + h);
+        tr.emit(&json!({"op":"reset","res":"ok"}));
+        let mut t = Tng::empty();
+        if h % 2 == 0 {
+            let (l, desc) = random_braid_link(&mut rng);
+            let s = State::from_iter((0..l.data().len()).map(|_| if rng.gen_bool(0.5) { Bit::Bit1 } else { Bit::Bit0 }));
+            let r = l.resolved_by(&s);
+            let mut xs: Vec<&Crossing> = r.data().iter().collect(); xs.shuffle(&mut rng);
+            for x in xs {
+                let kind = x.ctype().to_string();
+                let tx = Tng::from_resolved(x);
+                tr.emit(&json!({"op":"from_resolved","res":"ok","kind":kind,"edges":x.edges(),"out":tng_json(&tx),"link":desc}));
+                let before = t.ncomps();
+                t.connect(tx.clone()); glued_crossings += 1;
+                if t.ncomps() + 1 < before + tx.ncomps() && before >= 2 { merges3 += 1; }
+                tr.emit(&json!({"op":"connect","res":"ok","other":tng_json(&tx),"out":tng_json(&t)}));
+                if rng.gen_bool(0.3) { tng_observe(&t, &mut tr, &mut rng); }
+            }
+            if t.is_closed() { closed_tangles += 1; }
+            tr.emit(&json!({"op":"counts","res":"ok","n":t.ncomps(),"empty":t.is_empty(),"closed":t.is_closed(),"hascirc":t.contains_circle(),"euler":t.euler_num()}));
+        } else {
+            let mut fresh = 1usize;
+            fn take_labels(fresh: &mut usize, n: usize, rng: &mut StdRng) -> Vec<usize> { let mut v = vec![]; for _ in 0..n { *fresh += rng.gen_range(1..3); v.push(*fresh); } v }
+            for _ in 0..rng.gen_range(8..30) {
+                match rng.gen_range(0..12) {
+                    0..=5 => {
+                        // an arc on fresh labels, attached at none / one / two open ends (two ends of one component close it up)
+                        let mut ends: Vec<usize> = t.endpts().into_iter().collect(); ends.sort(); ends.shuffle(&mut rng);
+                        let k = rng.gen_range(0..3usize).min(ends.len());
+                        let mut es = take_labels(&mut fresh, rng.gen_range(if k == 2 { 0 } else { 2 - k.min(1) }..3), &mut rng);
+                        if k >= 1 { es.insert(0, ends[0]); } if k == 2 { es.push(ends[1]); }
+                        if es.len() < 2 { continue; }
+                        if rng.gen_bool(0.5) { es.reverse(); }
+                        let arc = TngComp::arc(es.clone());
+                        let before = t.ncomps();
+                        if rng.gen_bool(0.7) { t.append_arc(arc.clone()); if t.ncomps() + 1 == before { merges3 += 1; } tr.emit(&json!({"op":"append_arc","res":"ok","arc":comp_json(&arc),"out":tng_json(&t)})); }
+                        else { let o = Tng::from(arc.clone()); t.connect(o.clone()); tr.emit(&json!({"op":"connect","res":"ok","other":tng_json(&o),"out":tng_json(&t)})); }
+                    }
+                    6 => { let c = TngComp::circ(take_labels(&mut fresh, rng.gen_range(1..4), &mut rng)); let arc = TngComp::arc(take_labels(&mut fresh, 2, &mut rng));
+                           let o = Tng::new(vec![c, arc]); t.connect(o.clone()); tr.emit(&json!({"op":"connect","res":"ok","other":tng_json(&o),"out":tng_json(&t)})); }
+                    7 => { let c = TngComp::circ(take_labels(&mut fresh, 1, &mut rng)); let r = guarded(|| { let mut u = t.clone(); u.append_arc(c.clone()); u }); if r.is_err() { panics += 1; }
+                           tr.emit(&json!({"op":"append_arc","res":res_of(&r),"arc":comp_json(&c)})); }
+                    8 => { let i = rng.gen_range(0..t.ncomps() + 1); let r = guarded(|| { let mut u = t.clone(); let c = u.remove_at(i); (u, c) });
+                           match r { Ok((u, c)) => { t = u; tr.emit(&json!({"op":"remove_at","res":"ok","i":i,"comp":comp_json(&c),"out":tng_json(&t)})); } Err(_) => { panics += 1; tr.emit(&json!({"op":"remove_at","res":"panic","i":i})); } } }
+                    9 => { let (m, b) = if rng.gen_bool(0.5) { (1i64, rng.gen_range(0..50i64)) } else { (-1i64, fresh as i64 + rng.gen_range(1..50i64)) };
+                           t = t.convert_edges(|e| (b + m * e as i64) as usize); if m == -1 { fresh = b as usize + 1; } else { fresh += b as usize; }
+                           tr.emit(&json!({"op":"convert_edges","res":"ok","mul":m,"add":b,"out":tng_json(&t)})); }
+                    10 => { let cs: Vec<TngComp> = vec![TngComp::arc(take_labels(&mut fresh, 2, &mut rng)), TngComp::circ(take_labels(&mut fresh, 2, &mut rng)), TngComp::arc(take_labels(&mut fresh, 3, &mut rng))]; let mut sh = cs.clone(); sh.shuffle(&mut rng);
+                            t = Tng::new(sh.clone()); tr.emit(&json!({"op":"new","res":"ok","comps":sh.iter().map(comp_json).collect::<Vec<_>>(),"out":tng_json(&t)})); }
+                    _ => { let mut ends: Vec<usize> = t.endpts().into_iter().collect(); ends.sort(); if ends.is_empty() { continue; }
+                           let arc = TngComp::arc(vec![*ends.choose(&mut rng).unwrap(), 100000]); tr.emit(&json!({"op":"find_conn","res":"ok","arc":comp_json(&arc),"out":idx_json(t.find_comp(|c| c.is_connectable(&arc)))})); }
+                }
+                tng_observe(&t, &mut tr, &mut rng);
+            }
+        }
+    }
+    // outside the machine's domain (recorded as an observation): a tangle made by Tng::new from arcs that still share an end label
+    let probe = guarded(|| { let mut u = Tng::new(vec![TngComp::arc([1, 2]), TngComp::arc([2, 3])]); u.append_arc(TngComp::arc([3, 4])); tng_json(&u) });
+    let n = tr.finish();
+    summary("record", json!({"events": n, "histories": nh, "panics": panics, "resolved_crossings_glued": glued_crossings, "tangles_closed_at_the_end": closed_tangles, "gluings_joining_two_components": merges3,
+        "probe_append_to_unglued_tangle": match probe { Ok(v) => json!({"returned": v}), Err(m) => json!({"panic": m}) }}));
+}
+
 /// command dispatch for the `yv` binary: `yv <component> <record|replay> ...`
 pub fn dispatch(comp: &str, cmd: &str, a: &Args) -> bool {
     match (comp, cmd) {
@@ -608,6 +763,7 @@ pub fn dispatch(comp: &str, cmd: &str, a: &Args) -> bool {
         ("grid", "replay") => grid_replay(a), ("grid", "record") => grid_record(a),
         ("path", "replay") => path_replay(a), ("path", "record") => path_record(a),
         ("fmt", "replay") => fmt_replay(a), ("fmt", "record") => fmt_record(a),
+        ("tng", "replay") => tng_replay(a), ("tng", "record") => tng_record(a),
         _ => return false,
     }
     true
